@@ -30,6 +30,9 @@ OPS = {
     'ok_c':       dict(src='A:\naddi x8, x8, 1\nbeq x8, x0, A\nli x9, 0x12345\nB:\ncall A\n', compress=True),
     'ok_u':       dict(src='A:\naddi x8, x8, 1\nbeq x8, x0, A\nli x9, 0x12345\nB:\ncall A\n', compress=False),
     'many':       dict(src=''.join('%s:\n%s_K = %d\ndb %d\n' % (n, n, i, i) for i, n in enumerate('zeta alpha mid beta omega gamma y x w q'.split())), nodicts=True),
+    # two boards sharing ONE caller-owned include_dirs list object (kept alive for the whole history): each has its own config.asm beside its main file
+    'board1':     dict(board=1, compress=False),
+    'board2':     dict(board=2, compress=True),
     'path_A':     dict(path=True, main='include inc.asm\nM:\nnop\n', inc='FOO = 1\nI:\naddi x8, x8, FOO\n'),
     'path_B':     dict(path=True, main='M:\ninclude inc.asm\nadd x5, x6, x7\n', inc='FOO = 2\nI:\naddi x9, x9, FOO\n', compress=True),
 }
@@ -82,13 +85,30 @@ def state_hash():
     return hashlib.sha1(canon(items).encode()).hexdigest()[:16]
 
 
+SHARED_INC = []
+
+
 def run_op(name, scratch, keep):
     op = OPS[name]
     labels, consts = {}, {}
     kw = dict(compress=op.get('compress', False))
     if not op.get('nodicts'):
         kw.update(labels=labels, constants=consts)
-    if op.get('path'):
+    if op.get('board'):
+        for b, v in ((1, 0x111), (2, 0x222)):
+            os.makedirs(os.path.join(scratch, 'b%d' % b), exist_ok=True)
+            with open(os.path.join(scratch, 'b%d' % b, 'config.asm'), 'w') as f:
+                f.write('CFG = %d\n' % v)
+            with open(os.path.join(scratch, 'b%d' % b, 'main.asm'), 'w') as f:
+                f.write('include config.asm\ninclude lib.asm\nboard%d:\ndw CFG\ndw LIBV\n' % b)
+        os.makedirs(os.path.join(scratch, 'lib'), exist_ok=True)
+        with open(os.path.join(scratch, 'lib', 'lib.asm'), 'w') as f:
+            f.write('LIBV = 9\n')
+        if not SHARED_INC:
+            SHARED_INC.append(os.path.join(scratch, 'lib'))
+        kw['include_dirs'] = SHARED_INC
+        arg = os.path.join(scratch, 'b%d' % op['board'], 'main.asm')
+    elif op.get('path'):
         os.makedirs(scratch, exist_ok=True)
         with open(os.path.join(scratch, 'inc.asm'), 'w') as f:
             f.write(op['inc'])
@@ -112,6 +132,8 @@ def run_op(name, scratch, keep):
     keep.append((labels, consts, list(labels.items()), list(consts.items())))
     # dictionaries handed out by earlier calls must not be touched by later ones
     res['earlier_dicts_intact'] = all(list(l.items()) == ls and list(c.items()) == cs for l, c, ls, cs in keep)
+    # a caller-owned include_dirs list must come back exactly as it was handed in
+    res['include_dirs_intact'] = (SHARED_INC in ([], [os.path.join(scratch, 'lib')]))
     res['state'] = state_hash()
     return res
 
